@@ -7,19 +7,31 @@ From TD Require Export Model.Dial.
 From TD Require Import Lib.RunLib.
 Import ListNotations.
 
-Definition case := (nat * list action * (nat * list nat * list nat * list nat))%type.
+(* case = (n, script run with settling, dials released together, caller cancels together with them,
+           late failures of dials that only return on ctx.Done, observation).  For a racy release the
+           implementation's selects may commit to any ready case: the observation must be the outcome of SOME
+           fair completion (Model.Dial.explore) of the state in which the released dials are all pending. *)
+Definition case := (nat * list action * list (nat * bool) * bool * list action * (nat * list nat * list nat * list nat))%type.
 Definition natlist_eqb := list_eqb Nat.eqb.
 Fixpoint mem (x : nat) (l : list nat) : bool := match l with [] => false | a :: t => Nat.eqb a x || mem x t end.
 Definition sel (n : nat) (p : nat -> bool) : list nat := filter p (seq 0 n).
 Definition is_closed (s : state) (i : nat) : bool := match d_st s i with Left true => true | _ => false end.
 Definition is_open (s : state) (i : nat) : bool := match d_st s i with Done true | Delivered true => true | _ => false end.
-Definition ok (c : case) : bool :=
-  let '(n, script, (kind, arg, closed, opened)) := c in
-  let s := play n script in
+Definition matches (n : nat) (obs : nat * list nat * list nat * list nat) (s : state) : bool :=
+  let '(kind, arg, closed, opened) := obs in
   (match d_main s with
    | RetConn i => Nat.eqb kind 0 && natlist_eqb arg [i]
    | RetErr e => Nat.eqb kind 1 && natlist_eqb arg (sel n (fun i => mem i e))
    | RetCtx => Nat.eqb kind 2
    | Running _ => Nat.eqb kind 3
    end) && natlist_eqb closed (sel n (is_closed s)) && natlist_eqb opened (sel n (is_open s)).
+Definition ok (c : case) : bool :=
+  let '(n, script, race, rcancel, tail, obs) := c in
+  let s0 := dial_all (play n script) race in
+  let s1 := if rcancel then match step s0 ECallerCancel with Some s' => s' | None => s0 end else s0 in
+  existsb (fun s => matches n obs (fold_left act tail s)) (explore (2 * n + 3) s1).
 Definition mismatches (cs : list case) : list nat := mismatch_idx ok cs.
+(* typed constructor for the generated case files (elaborating large nested tuple literals is slow) *)
+Definition mk (n : nat) (script : list action) (race : list (nat * bool)) (rcancel : bool) (tail : list action)
+              (kind : nat) (arg closed opened : list nat) : case :=
+  (n, script, race, rcancel, tail, (kind, arg, closed, opened)).
